@@ -204,12 +204,19 @@ theorem stale_output_irrelevant_steps (steps : List Str) (h : removeFirst steps 
       · simp only [h1, h2, if_false, Bool.false_eq_true] at h ⊢
         exact ih h ws
 
-/-- ... and `Documentation.writeout` as it is in the tree (statement list regenerated
-    from the source) is such a list. -/
+/-- ... and what a run of the tree does at the output directory (event list observed on every check:
+    a real run over a stale output directory with the file-system primitives wrapped) is such a list. -/
 theorem stale_output_irrelevant (out : Path) (ws : List (List (Path × Str))) (fs₁ fs₂ : FS) (p : Path)
     (hp : isUnder out p = true) :
     look (run (writeoutOps out ws) fs₁) p = look (run (writeoutOps out ws) fs₂) p :=
   stale_output_irrelevant_steps Gen.C12.writeoutSteps (by decide) out ws fs₁ fs₂ p hp
+
+/-- ... also when a plain file stands where the output directory goes (second observed run). -/
+theorem stale_output_irrelevant_plain_file (out : Path) (ws : List (List (Path × Str))) (fs₁ fs₂ : FS) (p : Path)
+    (hp : isUnder out p = true) :
+    look (run (stepsOps out Gen.C12.writeoutStepsPlainFile ws) fs₁) p
+      = look (run (stepsOps out Gen.C12.writeoutStepsPlainFile ws) fs₂) p :=
+  stale_output_irrelevant_steps Gen.C12.writeoutStepsPlainFile (by decide) out ws fs₁ fs₂ p hp
 
 /-- Without the removal a stale file survives (why `removeFirst` is needed). -/
 theorem stale_output_witness :
@@ -404,6 +411,95 @@ theorem type_bindings_order_witness :
       = typeBindings true id [⟨"area".toList, false⟩, ⟨"show".toList, false⟩] [] := by
   decide
 
+/-! ## what an earlier run left in the output directory is not read either -/
+
+/-- Clause "regardless of what an earlier run left in the output directory", input side: `find_all_files`
+    returns the same files for any two file systems that differ only below a directory on the exclude list —
+    so the copies of the sources (`src/*.f90`) or any other stale output below an excluded output directory are
+    never parsed, even when that directory lies inside a source directory. -/
+theorem stale_output_never_read (srcDirs excl : List Path) (exts : List Str) (out : Path) (h : out ∈ excl)
+    (fs₁ fs₂ : FS)
+    (hfs : (fs₁.map (·.1)).filter (fun p => !isBelow out p) = (fs₂.map (·.1)).filter (fun p => !isBelow out p)) :
+    findSources srcDirs excl exts fs₁ = findSources srcDirs excl exts fs₂ := by
+  rw [findSources_eq_filter_notBelow srcDirs excl exts out h fs₁,
+      findSources_eq_filter_notBelow srcDirs excl exts out h fs₂, hfs]
+
+/-- However the output directory is configured (table probed on every run through the real `load_settings`,
+    `parse_arguments` and `find_all_files`: project file / default / command line, with and without
+    `project_url`), it ends up excluded from the source search — or the configuration is the one of an open
+    finding.  A change that excludes it only under some condition makes this fail. -/
+theorem output_dir_excluded_however_configured :
+    ∀ c ∈ Gen.C12.outputDirExcludedIn, c.2 = true ∨ c.1 ∈ defectiveOutDirConfigs := by
+  decide
+
+/-- ... hence, as the tree is, for every probed configuration outside the open finding: what the output
+    directory holds before the run does not change the set of files that are parsed. -/
+theorem stale_output_never_read_tree (cfg : Str) (hc : cfg ∈ Gen.C12.outputDirExcludedIn.map (·.1))
+    (hd : cfg ∉ defectiveOutDirConfigs) (srcDirs userExcl : List Path) (out : Path) (exts : List Str)
+    (fs₁ fs₂ : FS)
+    (hfs : (fs₁.map (·.1)).filter (fun p => !isBelow out p) = (fs₂.map (·.1)).filter (fun p => !isBelow out p)) :
+    findSourcesTree cfg srcDirs userExcl out exts fs₁ = findSourcesTree cfg srcDirs userExcl out exts fs₂ := by
+  have key : ∀ c ∈ Gen.C12.outputDirExcludedIn.map (·.1), c ∉ defectiveOutDirConfigs → outDirExcluded c = true := by
+    decide
+  have he := key cfg hc hd
+  unfold findSourcesTree excludeDirsTree
+  rw [he]
+  exact stale_output_never_read srcDirs (userExcl ++ [out]) exts out (by simp) fs₁ fs₂ hfs
+
+/-- Why the exclusion is needed: an output directory inside the source directory that still holds the copy of
+    a source file from an earlier run — not excluded, the copy is parsed as a second source file. -/
+theorem stale_output_read_witness :
+    findSources [[cs! "src"]] [] [cs! "f90"]
+        [([cs! "src", cs! "a.f90"], []), ([cs! "src", cs! "html", cs! "src", cs! "a.f90"], [])]
+      = [[cs! "src", cs! "a.f90"], [cs! "src", cs! "html", cs! "src", cs! "a.f90"]] ∧
+    findSources [[cs! "src"]] [[cs! "src", cs! "html"]] [cs! "f90"]
+        [([cs! "src", cs! "a.f90"], []), ([cs! "src", cs! "html", cs! "src", cs! "a.f90"], [])]
+      = findSources [[cs! "src"]] [[cs! "src", cs! "html"]] [cs! "f90"] [([cs! "src", cs! "a.f90"], [])] := by
+  decide
+
+/-! ## the order of the extension list (built from a set union) -/
+
+/-- Deciding the kind of a file (free / fixed form, preprocessed or not, extra file type, skipped) from the
+    *last suffix* of its name by membership tests: the order in which `settings.extensions` — a
+    `list(set(..) | set(..))` — lists the extensions is invisible. -/
+theorem file_kind_by_suffix_order_irrelevant (c : ExtCfg) (e' : List Str) (hp : e'.Perm c.exts) (name : Str) :
+    fileKind true { c with exts := e' } name = fileKind true c name := by
+  simp only [fileKind, extensionOf, if_true]
+  rw [contains_perm (hp.append_right c.fixed)]
+
+/-- Clause "regardless of string-hash randomisation" for the extension list, as the tree is (switch probed on
+    the real `Project.__init__` on every run): whether a file is parsed, preprocessed, read as fixed form or
+    treated as an extra file does not depend on the order `ω` of the set union. -/
+theorem file_kind_tree_deterministic (ω₁ ω₂ : List Str → List Str) (h₁ : ∀ l, (ω₁ l).Perm l)
+    (h₂ : ∀ l, (ω₂ l).Perm l) (c : ExtCfg) (name : Str) : fileKindTree ω₁ c name = fileKindTree ω₂ c name := by
+  have h : Gen.C12.extensionBySuffix = true := by decide
+  unfold fileKindTree
+  rw [h, file_kind_by_suffix_order_irrelevant c (ω₁ c.exts) (h₁ c.exts) name,
+      file_kind_by_suffix_order_irrelevant c (ω₂ c.exts) (h₂ c.exts) name]
+
+/-- What holds even when the first configured extension the name ends with wins: if the name ends with at most
+    one configured extension, the order of the list is still invisible ... -/
+theorem file_kind_first_match_partial (c : ExtCfg) (e' : List Str) (hp : e'.Perm c.exts) (name : Str)
+    (hu : ∀ a b, a ∈ c.exts ++ c.fixed ++ c.extra → b ∈ c.exts ++ c.fixed ++ c.extra →
+      endsWithExt name a = true → endsWithExt name b = true → a = b) :
+    fileKind false { c with exts := e' } name = fileKind false c name := by
+  have hperm : (e' ++ c.fixed ++ c.extra).Perm (c.exts ++ c.fixed ++ c.extra) :=
+    (hp.append_right c.fixed).append_right c.extra
+  have hf : (e' ++ c.fixed ++ c.extra).find? (endsWithExt name) = (c.exts ++ c.fixed ++ c.extra).find? (endsWithExt name) :=
+    find?_perm_unique _ _ _ hperm
+      (fun a b ha hb => hu a b (hperm.mem_iff.mp ha) (hperm.mem_iff.mp hb))
+  simp only [fileKind, extensionOf, Bool.false_eq_true, if_false, hf]
+  rw [contains_perm (hp.append_right c.fixed)]
+
+/-- ... and visible as soon as one configured extension is a dotted suffix of another (`f90` / `pp.f90`):
+    `x.pp.f90` is preprocessed or not depending on the hash order.  By the last suffix it never is. -/
+theorem file_kind_first_match_order_witness :
+    fileKind false ⟨[cs! "f90", cs! "pp.f90"], [], [cs! "pp.f90"], []⟩ (cs! "x.pp.f90") = .fortran false false ∧
+    fileKind false ⟨[cs! "pp.f90", cs! "f90"], [], [cs! "pp.f90"], []⟩ (cs! "x.pp.f90") = .fortran true false ∧
+    fileKind true ⟨[cs! "f90", cs! "pp.f90"], [], [cs! "pp.f90"], []⟩ (cs! "x.pp.f90") = .fortran false false ∧
+    fileKind true ⟨[cs! "pp.f90", cs! "f90"], [], [cs! "pp.f90"], []⟩ (cs! "x.pp.f90") = .fortran false false := by
+  decide
+
 /-! ## hash-ordered collections turned into sequences, anywhere in the package -/
 
 /-- Every place in `ford/*.py` where a syntactically hash-ordered collection (set, set operator on sets or dict
@@ -414,5 +510,103 @@ theorem hash_iter_sites_all_reviewed :
     ∀ s ∈ Gen.C12.hashIterSites,
       s.2 = true ∨ s.1 ∈ reviewedHashIterSites ∨ s.1 ∈ defectiveHashIterSites := by
   decide
+
+/-! ## the key `sorted()` compares -/
+
+/-- Clause "regardless of string-hash randomisation" for every `sorted(<set of graph nodes>)`, as the tree is:
+    `BaseNode.__lt__` compares the identifier the set is keyed by (switch regenerated from the AST on every
+    run), so whatever order the set is iterated in, the nodes are emitted in one order - also when several
+    nodes carry the same label. -/
+theorem graph_nodes_tree_deterministic (n₁ n₂ : List Node) (hp : n₁.Perm n₂)
+    (hid : (n₁.map (·.ident)).Nodup) : emitNodesTree n₁ = emitNodesTree n₂ := by
+  have h : Gen.C12.nodeLtByIdent = true := by decide
+  have hk : nodeKeyOf true = (·.ident) := by funext n; simp [nodeKeyOf]
+  simp only [emitNodesTree, emitNodesBy, h, hk]
+  exact sortOn_perm_of_nodup _ n₁ n₂ hp hid
+
+/-- ... and the same for `sorted(<set of entities>)` (`FortranBase.__lt__`; toposort levels, `graph_all`),
+    for sets whose members have pairwise different identifiers. -/
+theorem entities_sorted_tree_deterministic (e₁ e₂ : List Node) (hp : e₁.Perm e₂)
+    (hid : (e₁.map (·.ident)).Nodup) : sortEntitiesTree e₁ = sortEntitiesTree e₂ := by
+  have h : Gen.C12.entityLtByIdent = true := by decide
+  have hk : nodeKeyOf true = (·.ident) := by funext n; simp [nodeKeyOf]
+  simp only [sortEntitiesTree, emitNodesBy, h, hk]
+  exact sortOn_perm_of_nodup _ e₁ e₂ hp hid
+
+/-- What holds for any compared key: node sets in which the key happens to distinguish the members. -/
+theorem graph_nodes_any_key_partial (byIdent : Bool) (n₁ n₂ : List Node) (hp : n₁.Perm n₂)
+    (hk : (n₁.map (nodeKeyOf byIdent)).Nodup) : emitNodesBy byIdent n₁ = emitNodesBy byIdent n₂ :=
+  sortOn_perm_of_nodup _ n₁ n₂ hp hk
+
+/-- Ordered by the label, two equally named procedures of different modules come out in the iteration order
+    of the set; ordered by the identifier they do not. -/
+theorem graph_nodes_label_key_witness :
+    emitNodesBy false [⟨cs! "proc~helper", cs! "helper"⟩, ⟨cs! "proc~helper~2", cs! "Helper"⟩]
+      ≠ emitNodesBy false [⟨cs! "proc~helper~2", cs! "Helper"⟩, ⟨cs! "proc~helper", cs! "helper"⟩] ∧
+    emitNodesBy true [⟨cs! "proc~helper", cs! "helper"⟩, ⟨cs! "proc~helper~2", cs! "Helper"⟩]
+      = emitNodesBy true [⟨cs! "proc~helper~2", cs! "Helper"⟩, ⟨cs! "proc~helper", cs! "helper"⟩] := by
+  refine ⟨?_, graph_nodes_any_key_partial true _ _ (List.Perm.swap _ _ _) (by decide)⟩
+  rw [emitNodesBy, emitNodesBy, sortOn_of_sorted _ _ (by decide), sortOn_of_sorted _ _ (by decide)]
+  decide
+
+/-- Every class of `ford/*.py` that defines an order (table regenerated on every run) compares the identifier,
+    and where the class also defines the identity of its objects in a set (`__eq__`, `__hash__`) it is the same
+    attribute: the order distinguishes whatever the set distinguishes. -/
+theorem order_defs_compare_the_set_identity :
+    ∀ d ∈ Gen.C12.orderDefs, d.2.1 = cs! "ident" ∧ (d.2.2.1 = [] ∨ d.2.2.1 = d.2.1) ∧ (d.2.2.2 = [] ∨ d.2.2.2 = d.2.1) := by
+  decide
+
+/-- Every `sorted()` / `.sort()` / keyed `min`, `max` of `ford/*.py` and every sort filter of the templates
+    (table regenerated on every run) uses the natural order of its elements (no `key=`, not reversed), or is one
+    of the keyed sorts reviewed as working on an input whose order is itself determined.  In particular no sort of
+    a set or of a directory listing has a key. -/
+theorem sort_sites_natural_or_reviewed :
+    ∀ s ∈ Gen.C12.sortSites,
+      (s.2.2.1 = [] ∧ s.2.2.2 = []) ∨
+      (s.2.1 = cs! "other" ∧ s.2.2.2 = [] ∧ (s.1, s.2.2.1) ∈ reviewedKeyedSorts) := by
+  decide
+
+/-! ## page directories -/
+
+/-- Clause "regardless of the order in which the file system enumerates" for the page tree, as the tree is:
+    the listing of a page directory is sorted by the entry names themselves (switch regenerated from the AST of
+    `get_page_tree` on every run) and the names in one directory are pairwise different, so the entries are
+    walked in one order whatever `os.listdir` returns - for every `ordered_subpage` list. -/
+theorem page_entries_tree_deterministic (ordered e₁ e₂ : List Str) (hp : e₁.Perm e₂) (hnd : e₁.Nodup) :
+    pageFileListTree ordered e₁ = pageFileListTree ordered e₂ := by
+  have h : Gen.C12.pageListNatural = true := by decide
+  have hk : pageKey true = id := by funext n; simp [pageKey]
+  simp only [pageFileListTree, pageFileList, h, hk]
+  rw [sortOn_perm_of_nodup id e₁ e₂ hp (by simpa using hnd)]
+
+/-- What holds for a keyed listing too: directories in which the key distinguishes the entries. -/
+theorem page_entries_any_key_partial (natural : Bool) (ordered e₁ e₂ : List Str) (hp : e₁.Perm e₂)
+    (hk : (e₁.map (pageKey natural)).Nodup) : pageFileList natural ordered e₁ = pageFileList natural ordered e₂ := by
+  simp only [pageFileList]
+  rw [sortOn_perm_of_nodup _ e₁ e₂ hp hk]
+
+/-- The walk starts with the user's `ordered_subpage` entries (those that are shown), in the order given:
+    the listing only decides the rest. -/
+theorem page_entries_user_order_first (natural : Bool) (o : Str) (ordered enum : List Str) :
+    ∃ rest, pageFileList natural (o :: ordered) enum = (if pageVisible o then [o] else []) ++ rest := by
+  simp only [pageFileList, List.isEmpty_cons, Bool.false_eq_true, if_false, List.cons_append, dedupAux,
+    List.contains_nil, List.filter_cons]
+  split <;> exact ⟨_, rfl⟩
+
+/-- Sorted by the lower-cased stem, a page `usage.md` next to a sub-directory `usage` (or `FAQ.md` next to
+    `faq.md`) is walked in the order of the file system; sorted by name it is not. -/
+theorem page_entries_stem_key_witness :
+    pageFileList false [] [cs! "index.md", cs! "usage.md", cs! "usage"]
+      ≠ pageFileList false [] [cs! "index.md", cs! "usage", cs! "usage.md"] ∧
+    pageFileList false [] [cs! "FAQ.md", cs! "faq.md"] ≠ pageFileList false [] [cs! "faq.md", cs! "FAQ.md"] ∧
+    pageFileList true [] [cs! "index.md", cs! "usage.md", cs! "usage"]
+      = pageFileList true [] [cs! "index.md", cs! "usage", cs! "usage.md"] := by
+  refine ⟨?_, ?_, page_entries_any_key_partial true [] _ _ ((List.Perm.swap _ _ _).cons _) (by decide)⟩
+  · simp only [pageFileList]
+    rw [sortOn_of_sorted _ _ (by decide), sortOn_of_sorted _ _ (by decide)]
+    decide
+  · simp only [pageFileList]
+    rw [sortOn_of_sorted _ _ (by decide), sortOn_of_sorted _ _ (by decide)]
+    decide
 
 end Ford.C12
